@@ -4,7 +4,7 @@
    only thing Coq prints is the list of failing case numbers.                         *)
 
 From Coq Require Import List ZArith QArith Qcanon Bool Lia.
-From NI Require Export Num Base Mono Lookup Linear.
+From NI Require Export Num Base Mono Lookup Linear Interp Spline Scenario.
 Import ListNotations.
 
 Definition failing {A} (f : A -> bool) (cs : list (Z * A)) : list Z :=
@@ -49,3 +49,16 @@ Definition model_hist (n : nat) : list Z :=
 
 Definition c12_hist_ok (c : nat * list Z) : bool :=
   list_eqb Z.eqb (model_hist (fst c)) (snd c).
+
+(* ---------------- C11 ---------------- *)
+
+Definition res_code (o : outcome nat) : Z :=
+  match o with Ok i => Z.of_nat i | _ => (-1)%Z end.
+
+Definition c11_ok_xq (c : list xq * list xq * list Z) : bool :=
+  let '(ax, qs, expected) := c in
+  list_eqb Z.eqb (map (fun q => res_code (lower_index NumXQ ax q)) qs) expected.
+
+Definition c11_ok_z (c : list Z * list Z * list Z) : bool :=
+  let '(ax, qs, expected) := c in
+  list_eqb Z.eqb (map (fun q => res_code (lower_index NumZ ax q)) qs) expected.
